@@ -1,6 +1,7 @@
 // Guarded buffers of exactly the declared extent, CPU-mask hook, limb-vector helpers.
 #pragma once
 #include "common.hpp"
+#include "allocwrap.hpp"
 
 #if defined(__SANITIZE_ADDRESS__)
 #define VF_ASAN 1
